@@ -8,7 +8,9 @@
   by the total key `(query_start, query_end, hit_id, evalue, bitscore)`) and
   `fixes/D22_merge_spans.patch` (`merge` takes `min` start / `max` end) and
   `fixes/D32_keep_separate_domains.patch` (`_merge_domain_list` keeps a run of fragments when the
-  next fragment of the profile is too far away, instead of forgetting it) applied.
+  next fragment of the profile is too far away, instead of forgetting it) and
+  `fixes/D61_remove_overlapping_by_rank.patch` (`_remove_overlapping` works down the results by
+  score and compares each with *every* kept result, not only with the last one) applied.
 
   Representation (exact, order-isomorphic; see `harness/props/c13.py`):
     * `prof`  — rank of the profile name among the sorted profile names of the case (Python compares
@@ -77,26 +79,38 @@ def sortHits (l : List Hit) : List Hit := dedupAdj (sortBy Hit.le l)
 
 /-! ### `_remove_overlapping` -/
 
-/-- `result.query_start < previous.query_end - 0.20 * max(len[result], len[previous])` -/
+/-- `overlapping(earlier, later)`: `later.query_start < earlier.query_end - 0.20 * max(len[earlier], len[later])` -/
 def conflict (env : Env) (previous result : Hit) : Bool :=
   decide (5 * result.qs < 5 * previous.qe - max (env.len result.prof) (env.len previous.prof))
 
-/-- the loop of `_remove_overlapping` with `previous = non_overlapping[-1]` as argument; the
-    result is `non_overlapping` from `previous` on -/
-def remOvFrom (env : Env) : Hit → List Hit → List Hit
-  | previous, [] => [previous]
-  | previous, result :: rest =>
-    if conflict env previous result then
-      if result.sc > previous.sc then remOvFrom env result rest else remOvFrom env previous rest
-    else previous :: remOvFrom env result rest
+/-- `enumerate(results)` starting at `n` -/
+def enumFrom (n : Nat) : List Hit → List (Nat × Hit)
+  | [] => []
+  | h :: t => (n, h) :: enumFrom (n + 1) t
 
-/-- `_remove_overlapping(results, hmm_lengths)`; `results[0]` of an empty list is an `IndexError`
-    in Python — `refine` never calls it with one, the stage check maps `none` to the error -/
-def removeOverlapping? (env : Env) : List Hit → Option (List Hit)
-  | [] => none
-  | h :: t => some (remOvFrom env h t)
+/-- tuple comparison `key(a) <= key(b)` for the key `(-bitscore, index)`: best score first, the
+    earlier of two equal scores first -/
+def rankBefore (a b : Nat × Hit) : Bool :=
+  decide (b.2.sc < a.2.sc ∨ (a.2.sc = b.2.sc ∧ a.1 ≤ b.1))
 
-def removeOverlapping (env : Env) (l : List Hit) : List Hit := (removeOverlapping? env l).getD []
+/-- `overlapping(results[min(index, other)], results[max(index, other)])` -/
+def clashIdx (env : Env) (x y : Nat × Hit) : Bool :=
+  if x.1 ≤ y.1 then conflict env x.2 y.2 else conflict env y.2 x.2
+
+/-- the `for index in ranked` loop: `kept` is the accumulator -/
+def keepBest (env : Env) : List (Nat × Hit) → List (Nat × Hit) → List (Nat × Hit)
+  | kept, [] => kept
+  | kept, x :: rest =>
+    if kept.any (fun other => clashIdx env x other) then keepBest env kept rest
+    else keepBest env (kept ++ [x]) rest
+
+def leIdx (a b : Nat × Hit) : Bool := decide (a.1 ≤ b.1)
+
+/-- `_remove_overlapping(results, hmm_lengths)` (fix D61): by descending score (ties: position),
+    a result is kept unless it starts more than the margin before the end of (or ends more than
+    the margin after the start of) a kept one; the kept ones are returned in their input order -/
+def removeOverlapping (env : Env) (results : List Hit) : List Hit :=
+  ((sortBy leIdx (keepBest env [] (sortBy rankBefore (enumFrom 0 results)))).map (·.2))
 
 /-! ### `remove_incomplete` -/
 
